@@ -18,7 +18,10 @@ macro "num_unfold" : tactic => `(tactic|
       Verif.Gen.NumConsts.sema_Word128TypeMaxIntBig, Verif.Gen.NumConsts.sema_Word128TypeMaxIntPlusOneBig,
       Verif.Gen.NumConsts.sema_Word256TypeMaxIntBig, Verif.Gen.NumConsts.sema_Word256TypeMaxIntPlusOneBig,
       Verif.Gen.NumConsts.sema_UIntTypeMin] at *;
-   try simp at *))
+   try simp only [Int.reducePow, Nat.reducePow, Nat.reduceSub, Int.reduceSub, Int.reduceNeg, Int.reduceAdd, Int.reduceMul,
+     Int.reduceMod, Int.reduceTDiv, Int.reduceTMod, Int.reduceEq, Int.reduceNe, Int.reduceLT, Int.reduceLE, Int.reduceGT,
+     Int.reduceGE, true_and, false_and, and_true, and_false, if_true, if_false, ite_true, ite_false, ↓reduceIte,
+     Bool.false_eq_true, reduceCtorEq, ne_eq, gt_iff_lt, ge_iff_le, not_true_eq_false, not_false_eq_true] at *))
 
 /-- split every `if`; each leaf is an equation between `Except` values under linear hypotheses -/
 macro "num_finish" : tactic => `(tactic|
